@@ -436,6 +436,15 @@ def run_chart(case):
         fig, ax = plot_gantt_chart(sched, xlim=(case["xlim"][0] if case["xlim"] else None),
                                    cmap_name=CMAPS[case["cmap"]], job_labels=job_labels,
                                    machine_labels=machine_labels, **kw)
+    if case.get("open_after") is not None:
+        # ... or the other way round: a second chart of the same instance is plotted while this one is still
+        # open, and THIS one is looked at afterwards (it must still show what it showed)
+        with warnings.catch_warnings():
+            warnings.simplefilter("ignore")
+            d1 = Dispatcher(inst)
+            for j, p, m in case["open_after"]:
+                d1.dispatch(inst.jobs[j][p], m)
+            plot_gantt_chart(d1.schedule, cmap_name=CMAPS[case["cmap"]])
     try:
         same_axes = int(fig.axes and fig.axes[0] is ax)
         obs = read_axes(ax, inst.num_jobs, CMAPS[case["cmap"]], prefix,
@@ -513,9 +522,13 @@ class C20(Check):
         case["nt"] = None if r < 0.3 else rng.choice([1, 2, 3, 4, 7, 15, 16, 40, rng.randint(1, 200)])
         case["cmap"] = 1 if rng.random() < 0.2 else 0
         case["labels"] = 1 if rng.random() < 0.2 else 0
-        if rng.random() < 0.25:
+        r_open = rng.random()
+        if r_open < 0.2:
             case["open_before"] = random_history(rng, spec, rng.randint(1, total))
             self.note("chart_while_another_chart_is_open")
+        elif r_open < 0.4:
+            case["open_after"] = random_history(rng, spec, rng.randint(1, total))
+            self.note("chart_inspected_after_another_chart_was_plotted")
         st = common.instance_stats(spec)
         for k in ("flexible", "zero"):
             if st[k]:
@@ -785,6 +798,8 @@ class C20(Check):
     def shrink_candidates(self, case):
         if case.get("open_before") is not None:
             yield {k: v for k, v in case.items() if k != "open_before"}
+        if case.get("open_after") is not None:
+            yield {k: v for k, v in case.items() if k != "open_after"}
         if case.get("warm"):
             yield {k: v for k, v in case.items() if k != "warm"}
             yield dict(case, warm=case["warm"][:-1])
